@@ -60,12 +60,15 @@ def link_functions_stub(vmrun_new):
 class SwapAnalysis(progcheck.ProgramAnalysis):
     """old program = self.path; new program = new_path (same file for C06)"""
 
-    def __init__(self, new_path=None, pre_steps=0, voices_kept=None, voices_new=None, voices_inner=None, backend='vm', variant='inprocess', **kw):
+    def __init__(self, new_path=None, pre_steps=0, fresh=False, voices_kept=None, voices_new=None, voices_inner=None, backend='vm', variant='inprocess', **kw):
         progcheck.ProgramAnalysis.__init__(self, **kw)
         self.backend = backend              # 'vm': <VmDspRuntime as DspRuntime>::try_hot_swap; 'wasm': the CLI payload preparation + WasmDspRuntime::try_hot_swap
         self.variant = variant              # wasm only: how the CLI calls prepare_hot_swap_wasm_payload ('inprocess' | 'subprocess')
         self.new_path = new_path or self.path
         self.pre_steps = pre_steps
+        # fresh: the swap happens BEFORE the first sample (split point n = 0): history mode with zero samples, i.e. the state the
+        # runtime really has after main (on WASM the state vector grows lazily and is still short / empty)
+        self.fresh = fresh
         self.voices_kept = voices_kept      # [(old child index, new child index)] untouched voices (C07)
         self.voices_new = voices_new        # [new child index] inserted voices
         self.voices_inner = voices_inner    # [(old child index, new child index)] voices edited INSIDE: their untouched call sites continue
@@ -149,7 +152,7 @@ class SwapAnalysis(progcheck.ProgramAnalysis):
                 return path_wasm(it, ws)
             old = VmRun(it, pj_old)
             old.run_main()
-            if an.pre_steps:
+            if an.pre_steps or an.fresh:
                 # history mode (programs whose state words are HANDLES -- array-valued `self` -- cannot start from arbitrary words):
                 # n real samples with symbolic inputs from the initial state, then the swap
                 for k in range(an.pre_steps):
@@ -194,8 +197,8 @@ class SwapAnalysis(progcheck.ProgramAnalysis):
             # the next sample: same transition as the un-swapped machine (C06) / untouched channels continue (C07)
             n_in_o, n_in_n = pj_old['io']['input'], pj_new['io']['input']
             ins = [Sc('u64', z3.BitVec('in_0_%d' % c, 64)) for c in range(max(n_in_o, n_in_n))]
-            now = Sc('u64', z3.BitVec('now0', 64)) if not an.pre_steps else Sc('u64', an.pre_steps)
-            if not an.pre_steps:
+            now = Sc('u64', z3.BitVec('now0', 64)) if not (an.pre_steps or an.fresh) else Sc('u64', an.pre_steps)
+            if not (an.pre_steps or an.fresh):
                 it.smt.add(z3.ULT(now.v, 1 << 52))
             old.now[0] = now
             newrun.now[0] = now
@@ -212,7 +215,7 @@ class SwapAnalysis(progcheck.ProgramAnalysis):
                 return nstate[i] if i < len(nstate) else Sc('u64', 0)
             if same_src:
                 # C06: nothing may change
-                for i in range(min(size_old, len(snapshot)) if an.pre_steps else size_old):
+                for i in range(min(size_old, len(snapshot)) if (an.pre_steps or an.fresh) else size_old):
                     an.require_equal(it, nw(i), snapshot[i], 'state word %d changed by swapping to the same program' % i)
                 return
             ro, rn = child_ranges(skel_old), child_ranges(skel_new)
@@ -269,7 +272,7 @@ class SwapAnalysis(progcheck.ProgramAnalysis):
             wold = WasmRun(it, wj_old)
             wold.run_main()
             n_in_pre = wj_old['io']['input'] if wj_old.get('io') else 0
-            if an.pre_steps:
+            if an.pre_steps or an.fresh:
                 for k in range(an.pre_steps):
                     wold.set_input([Sc('u64', z3.BitVec('pre_%d_%d' % (k, c), 64)) for c in range(n_in_pre)])
                     wold.run_dsp(Sc('u64', k))
@@ -331,8 +334,8 @@ class SwapAnalysis(progcheck.ProgramAnalysis):
             n_in_o = wj_old['io']['input'] if wj_old.get('io') else 0
             n_in_n = wj_new['io']['input'] if wj_new.get('io') else 0
             ins = [Sc('u64', z3.BitVec('in_0_%d' % c, 64)) for c in range(max(n_in_o, n_in_n))]
-            now = Sc('u64', z3.BitVec('now0', 64)) if not an.pre_steps else Sc('u64', an.pre_steps)
-            if not an.pre_steps:
+            now = Sc('u64', z3.BitVec('now0', 64)) if not (an.pre_steps or an.fresh) else Sc('u64', an.pre_steps)
+            if not (an.pre_steps or an.fresh):
                 it.smt.add(z3.ULT(now.v, 1 << 52))
             worc.set_input(ins[:n_in_o])
             _, o_old = worc.run_dsp(now)
@@ -368,7 +371,8 @@ class SwapAnalysis(progcheck.ProgramAnalysis):
             self.result['panics'][-1]['swap_verbatim'] = bool(getattr(self, 'cur_swap_verbatim', False))
             self.result['panics'][-1]['n_out'] = getattr(self, 'n_out_pair', None)
             self.result['panics'][-1]['pre_steps'] = self.pre_steps
-            if self.pre_steps and f.model is not None:
+            self.result['panics'][-1]['fresh'] = self.fresh
+            if (self.pre_steps or self.fresh) and f.model is not None:
                 n_in = self.pj['io']['input'] if self.pj.get('io') else 0
                 try:
                     self.result['panics'][-1]['pre_inputs'] = [[f.model.eval(z3.BitVec('pre_%d_%d' % (k, c), 64), model_completion=True).as_long() for c in range(n_in)]
@@ -414,7 +418,7 @@ def confirm_swap(old_path, new_path, d, kept, new_voices, skel_ranges, backend='
     ins = d.get('inputs') or [[]]
     row = ins[0] if ins else []
     pre = d.get('pre_steps') or 0
-    if pre:
+    if pre or d.get('fresh'):
         # history mode: `pre` real samples from the initial state, the swap, one more sample
         rows = list(d.get('pre_inputs') or [[] for _ in range(pre)]) + [row]
         base = dict(src_path=old_path, backend=backend, steps=pre + 1, inputs=rows, now_start=0, timeout_s=20)
@@ -426,7 +430,7 @@ def confirm_swap(old_path, new_path, d, kept, new_voices, skel_ranges, backend='
         swapped = common.replay(dict(base, swaps=[dict(at_step=pre, src_path=new_path, variant=variant)]))[backend]
     except Exception as e:
         return False, dict(error=repr(e))
-    if pre:
+    if pre or d.get('fresh'):
         # compare the sample after the swap only
         for t in (plain, swapped):
             for k in ('outputs', 'state_after'):
@@ -480,6 +484,16 @@ def run(tier, seed, pid='C06'):
                 for (be, var) in BACKENDS:
                     jobs.append(('analysis', dict(cls=('checks.c06', 'SwapAnalysis'), path=os.path.join(sdir, fn), mir_paths=mirs, steps=1, mode='inductive', backend=be, variant=var,
                                                   pre_steps=2, query_timeout_ms=qto, time_budget_s=budget, seed=seed)))
+    if pid == 'C06':
+        # split point n = 0: the swap comes before the first sample, from the state the runtime really has after main (on WASM the
+        # state vector grows lazily and is still short); a fixed handful of programs in the quick tier, every st_ program otherwise
+        fresh = [f for f in files if os.path.basename(f).startswith('st_') and '/corpus/' in f]
+        if quick:
+            fresh = [f for f in fresh if os.path.basename(f)[:-4] in ('st_counter', 'st_self', 'st_mem', 'st_delay', 'st_nested', 'st_selftuple')]
+        for f in fresh:
+            for (be, var) in BACKENDS:
+                jobs.append(('analysis', dict(cls=('checks.c06', 'SwapAnalysis'), path=f, mir_paths=mirs, steps=1, mode='inductive', backend=be, variant=var,
+                                              fresh=True, query_timeout_ms=qto, time_budget_s=budget, seed=seed)))
     res = run_jobs(jobs)
     npaths = nchecks = 0
     for r in res:
@@ -492,7 +506,7 @@ def run(tier, seed, pid='C06'):
         for d in r.get('panics', []):
             if done:
                 break
-            if d['kind'] != 'swap' and not d.get('pre_steps'):
+            if d['kind'] != 'swap' and not d.get('pre_steps') and not d.get('fresh'):
                 rep.inconclusive.append('%s: path ended by a crash obligation (%s): see C03' % (r['program'], d['msg'][:70]))
                 continue
             rep.replays += 1
@@ -501,14 +515,18 @@ def run(tier, seed, pid='C06'):
             rec = dict(program=r['program'], backend=be, variant=var, msg=d['msg'], model=dict(inputs=d.get('inputs'), init_state=d.get('init_state'), now0=d.get('now0')), replay=detail)
             if ok:
                 done = True
-                rep.finding(r['program'] if be == 'vm' else '%s/wasm-%s' % (r['program'], var), rec)
+                key = r['program'] if be == 'vm' else '%s/wasm-%s' % (r['program'], var)
+                if d.get('fresh') and ('apply_patches' in (d.get('msg') or '') or 'exceeds old storage size' in str(detail)):
+                    # one cause, every program: keyed by cause and route
+                    key = '%s:swap-before-first-sample' % ('vm' if be == 'vm' else 'wasm-' + var)
+                rep.finding(key, rec)
             else:
                 rep.inconclusive.append('%s: "%s" has a model that the real VM does not exhibit' % (r['program'], d['msg'][:80]))
         if len(rep.samples) < 8:
             rep.samples.append(dict(program=r['program'], backend=r.get('backend'), variant=r.get('variant'), feasible_paths=r['paths'], equalities_checked=r.get('checks'), decided_syntactically=r.get('checks_trivial'), state_words=r.get('state_size')))
     cov = dict(states=max(1, npaths), transitions=max(1, rep.stats['queries']), traces_validated_against_impl=rep.replays, programs=len(rep.programs),
                equalities_checked=nchecks,
-               bounds='stateful + control corpus programs; swap point = arbitrary symbolic state (all state words; delay indices < len), so every split point n is covered by one inductive query; '
+               bounds='stateful + control corpus programs; swap point = arbitrary symbolic state (all state words; delay indices < len), so every split point n >= 1 is covered by one inductive query, and n = 0 (swap before the first sample, lazily grown WASM state) by a run from the real initial state for the st_ programs; '
                       'one dsp step after the swap with symbolic inputs compared with the un-swapped runtime (repeated swaps follow by induction); '
                       'three routes per program: <VmDspRuntime as DspRuntime>::try_hot_swap; FileRunner::prepare_hot_swap_wasm_payload (as called by the native CLI: '
                       'bytes only / as called by recompile_file_inprocess: with skeleton) + <WasmDspRuntime as DspRuntime>::try_hot_swap')
